@@ -136,7 +136,7 @@ def _c07_extra(o, driver, rng):
         o.suites.append(sp.run_suite(driver, sw.suite_cycles(rng, o.tier)))
 
 
-PROPERTIES["C07"] = {"run": _sched(_mon("C07"), extra=_c07_extra), "assumptions": SCHED_ASSUME + ["the run form of the promise is decided by the taint monitor, not by a theorem"]}
+PROPERTIES["C07"] = {"run": _sched(_mon("C07"), extra=_c07_extra), "assumptions": SCHED_ASSUME + ["the run form (promise_run) is a theorem for continuations in which the simulator itself causes nothing inside the window; the finer clause (a step inside the window caused by an own output or self-schedule lies at or after it) is decided by the taint monitor"]}
 def _c09_loops(o, driver, rng):
     """Dedicated loop scenarios: loops of length around the bound, nested groups, several bound values."""
     import sched_corr as scorr
